@@ -51,6 +51,12 @@ def docs(rng, thorough=False):
     add("return_annotations", "import pytest\nfrom typing import *\n\n@pytest.fixture\ndef f() -> 'Iterator[\"é\"]':\n    yield 1\n\n@pytest.fixture\ndef g() -> Callable[[int, ...], Literal['x', 1, None, ...]]: return 1\n\n@pytest.fixture\ndef h() -> (lambda: 1): return 1\n\n@pytest.fixture\ndef i() -> Generator[int] | None | 'é': yield\n")
     add("sig_comment_parens", "import pytest\n\n@pytest.fixture\ndef f():\n    return 1\n\ndef test_a(\n    f,\n    g=1\n):  # type: (Database, Cache) -> None\n    x = 1\n    return x\n\n"
         "def test_b(f):  # regression (issue 12)\n    y = 2\n    return y\n\ndef test_c(f): return (f, (1))\n")
+    # an acyclic ladder of diamonds: linearly many fixtures, exponentially many dependency paths
+    lad = "import pytest\n\n"
+    for i in range(40):
+        lad += f"@pytest.fixture\ndef a{i}(b{i}, c{i}):\n    return 1\n\n@pytest.fixture\ndef b{i}(a{i + 1}):\n    return 1\n\n@pytest.fixture\ndef c{i}(a{i + 1}):\n    return 1\n\n"
+    lad += "@pytest.fixture\ndef a40():\n    return 1\n\ndef test_l(a0):\n    pass\n"
+    add("diamond_ladder_40", lad)
     # inlay-hint targets: annotated fixtures requested by parameters at many columns
     add("inlay_targets", "import pytest\n\n@pytest.fixture\ndef f() -> int:\n    return 1\n\n@pytest.fixture\ndef gg(f) -> 'Str':\n    return f\n\n"
         "def test_a(f, gg, good_fixture):\n    pass\n\nclass TestK:\n    def test_m(self, gg, f): pass\n\ndef test_b(\n    f,\n    gg,\n):\n    pass\n")
@@ -58,7 +64,8 @@ def docs(rng, thorough=False):
     base = "\n\n@pytest.fixture(scope=\"session\")\n\n@other\ndef fx_typing(a, b):\n    pass\n\n\n@pytest.mark.usefixtures(\"a\",\n    \"b\")\ndef test_login(a, b):\n    return 1\n"
     for cut in range(3, len(base), 7 if not thorough else 2):
         add(f"typing_prefix_{cut}", base[:cut])
-    for pre in ("\n\ndef test_login(", "\n\n\n@x\n\n@y\ndef test_a(", "\n@pytest.fixture\n\nasync def f(", "\n \n\t\ndef test_z(a,",
+    for pre in ("\n@pytest.fixture\ndef database(", "\n\n@pytest.fixture\n@other\n\ndef db(a, ", "\n@fixture\ndef x(",
+                "\n\ndef test_login(", "\n\n\n@x\n\n@y\ndef test_a(", "\n@pytest.fixture\n\nasync def f(", "\n \n\t\ndef test_z(a,",
                 "\n\n@pytest.mark.usefixtures(", "\npytestmark = [pytest.mark.usefixtures(", "def test_q(a\n\n\n", "\n" * 60 + "def test_far("):
         add(f"typing_{len(out)}", pre)
     return out
